@@ -41,6 +41,9 @@ def gen(tier, seed, index):
     if cls == 'unitcycle' and (index // 4) % 2 == 1:
         # sparse transition tables with cycles of weight exactly one: reachability needs several iterations
         return G.gen_zero_cycle_spec(rng), dict(cls=cls, grid=True, forced=['zero-weight-cycle-in-factor'])
+    if index % 20 == 13:
+        # a component entered through one member while another member is the only user of an outside nonterminal
+        return G.gen_private_dependency_spec(rng, wdomain='log' if grid else 'real'), dict(cls='mixed', grid=grid, forced=['scc-member-with-private-dependency'])
     big_scc = (index // 16) % 2 == 1        # SCCs of 3-5 mutually recursive nonterminals with chords
     if index % 11 == 5:
         forced = ['unproductive-nt']
